@@ -176,6 +176,16 @@ def enum_grid(tier):
                     yield dict(base, rel="reverse", x=_grid_x(N, False, 5))
                 if row in est.REAL_COMPLEX:
                     yield dict(base, rel="real", x=_grid_x(N, False, 6))
+    for key, q in sorted(est.GRID_PARAMS_HIGH.items()):
+        row = key.rstrip("+")
+        for N in (150, 301):
+            base = {"row": row, "params": q, "nfft": max(N + 3, est.min_nfft(row, N, q)), "sbf": False, "sampling": 1.0}
+            yield dict(base, rel="shift", x=_grid_x(N, True, 12), m=3)
+            yield dict(base, rel="conj", x=_grid_x(N, True, 13))
+            if row in est.TIME_REVERSAL:
+                yield dict(base, rel="reverse", x=_grid_x(N, True, 14))
+                yield dict(base, rel="reverse", x=_grid_x(N, False, 15))
+            yield dict(base, rel="real", x=_grid_x(N, False, 16))
     # every window name (Periodogram: the taper itself; pcorrelogram: the lag window), even and odd lengths
     for name in sorted(spectrum.window.window_names.keys()):
         for N in (16, 17, 33):
